@@ -103,7 +103,11 @@ func VH_C03_api() {
 	data := vBytes("r", L)
 	loc := vGenApiLoc("f", L, shape)
 	ff := FeatureSlice{}
-	ff = ff.Insert(Feature{"source", Range(0, L), Props{[]string{"tag", "src"}}})
+	var srcLoc Location = Range(0, L)
+	if op == 2 && vChoice("srcrev", 2) == 1 {
+		srcLoc = srcLoc.Complement() // a source on the complement strand is made complete after slicing like any other
+	}
+	ff = ff.Insert(Feature{"source", srcLoc, Props{[]string{"tag", "src"}}})
 	ff = ff.Insert(Feature{"gene", loc, Props{[]string{"tag", "f"}}})
 	var src2 Location
 	if op == 2 {
